@@ -31,7 +31,12 @@ RULE = ("cases = (a) documented spellings of boundary and random IPv4 addresses 
         "(e) --listen / --to-ns forms, (f) [user[:password]@]host[:port] built from parts: every one of "
         "/ ? # [ ] % @ : space ; & = + \\ ~ ! $ , at the start, middle and end of the user name and of the password "
         "(exhaustive) and random mixtures of them, crossed with name / dotted quad / bare and bracketed IPv6 hosts "
-        "and ports; (g) every store-type option given in SSHUTTLE_ARGS, on the command line, or both; plus library "
+        "and ports; (g) every store-type option given in SSHUTTLE_ARGS, on the command line (once or twice), or both, through "
+        "the real cmdline.main with client.main replaced by a recorder; (h) -l/--listen occurrences naming one or both "
+        "address families in the environment and/or repeatedly on the command line, expected listeners = those of the "
+        "last occurrence alone; (i) subnet files for -s and -X: lines sharing address and width but differing in port / "
+        "range, comments, blank and indented lines, exact duplicates, a bad line, expected includes/excludes at "
+        "client.main = every listed line with its own ports; plus library "
         "streams (regex engine, glibc numeric getaddrinfo, inet_aton/pton/ntop, ipaddress, int()). A case is "
         "non-trivial when it reached getaddrinfo, or was rejected by a specific check, or decomposed a "
         "multi-part specification; distinct = distinct input string per stream")
@@ -53,7 +58,10 @@ MANIFEST = dict(
                 "follows the repaired IPv6 expression (fix commit 16080e8: class [\\w:.]); the "
                 "pre-fix code rejects embedded-IPv4 literals (finding F15, C16_v6_embedded_orig_false). The general "
                 "IPv6 spelling theorem and the host:port branch of parse_hostport are _partial (instances + "
-                "correspondence only)."),
+                "correspondence only). parse_subnetport_file is modelled (fileLoop: ASCII white space, \\n line ends) "
+                "and the environment/argv merge of --listen is modelled as store-then-parse (listenAfterMerge); what "
+                "cmdline.main finally hands to client.main (includes, excludes, listeners) is decided by the oracle on "
+                "the real code, built from the manual's meaning, not by the model."),
     technique="Lean 4 proof (parser round-trip over all addresses/widths/ports, case analysis over all strings) + differential correspondence with the real parsers + ipaddress oracle",
 )
 DRIVER_TARGETS = ['SshuttleModel.Code.Args', 'SshuttleModel.Code.InetAton']
@@ -860,6 +868,210 @@ def ipport_cases(ctx, R, rng):
     return cases
 
 
+def show_listen(captured):
+    def sh(x):
+        return '-' if x is None else 'auto' if x == 'auto' else '%s,%d' % (x[0], x[1])
+    return 'ok v6=%s v4=%s' % (sh(captured[0]), sh(captured[1]))
+
+
+def run_listen_env(R, env_tokens, argv_tokens):
+    """the real cmdline.main with -l/--listen occurrences in SSHUTTLE_ARGS and on the command line"""
+    R.log.idna = {}
+    ns, captured, _args = R.main_with_env(env_tokens or None, list(argv_tokens) + ['0/0'], stop_after_parse=False)
+    if captured is None:
+        return 'no-client-main', ns
+    return show_listen(captured), ns
+
+
+def listen_env_cases(ctx, R, rng):
+    """`-l` in the environment and/or (repeatedly) on the command line, each naming one family or
+    both.  Manual: environment arguments come first and a later occurrence replaces an earlier
+    one entirely, so the listeners are those of the LAST occurrence alone."""
+    cases = []
+
+    def one_listen():
+        a4 = rng.choice(V4_BOUNDARY[2:] + [rng.getrandbits(32)])
+        a6 = rng.choice([1, 0, V6_BOUNDARY[7], V6_BOUNDARY[9], rand_v6(rng)])
+        p4, p6 = rng.choice([0, 12300, 12345, rng.randrange(65536)]), rng.choice([0, 12300, rng.randrange(65536)])
+        ip4, ip6 = str(ipaddress.IPv4Address(a4)), str(ipaddress.IPv6Address(a6))
+        want6 = socket.inet_ntop(socket.AF_INET6, a6.to_bytes(16, 'big'))
+        k = rng.randrange(5)
+        if k == 0:
+            return '%s:%d' % (ip4, p4), '-', '%s,%d' % (ip4, p4)
+        if k == 1:
+            return '[%s]:%d' % (ip6, p6), '%s,%d' % (want6, p6), '-'
+        if k == 2:
+            return '%s:%d,[%s]:%d' % (ip4, p4, ip6, p6), '%s,%d' % (want6, p6), '%s,%d' % (ip4, p4)
+        if k == 3:
+            return '[%s]:%d,%s:%d' % (ip6, p6, ip4, p4), '%s,%d' % (want6, p6), '%s,%d' % (ip4, p4)
+        return '%d' % p4, '-', '0.0.0.0,%d' % p4
+
+    def toks(occ):
+        out = []
+        for (txt, _6, _4) in occ:
+            out.extend(rng.choice([['-l', txt], ['--listen', txt], ['--listen=' + txt]]))
+        return out
+    fixed = [([('[::1]:12300', '::1,12300', '-')], [('127.0.0.1:12345', '-', '127.0.0.1,12345')]),
+             ([('127.0.0.1:12345', '-', '127.0.0.1,12345')], [('[::1]:12300', '::1,12300', '-')]),
+             ([], [('[::1]:12300', '::1,12300', '-'), ('127.0.0.1:12345', '-', '127.0.0.1,12345')])]
+    for i in range(ctx.scale(150, 3000)):
+        if i < len(fixed):
+            env_occ, cmd_occ = fixed[i]
+        else:
+            env_occ = [one_listen() for _ in range(rng.choice([0, 1, 1, 1, 2]))]
+            cmd_occ = [one_listen() for _ in range(rng.choice([0, 1, 1, 1, 2]))]
+        if not env_occ and not cmd_occ:
+            continue
+        env_t, cmd_t = toks(env_occ), toks(cmd_occ)
+        last = (cmd_occ or env_occ)[-1]
+        expect = 'ok v6=%s v4=%s' % (last[1], last[2])
+        out, ns = run_listen_env(R, env_t, cmd_t)
+        ctx.hist('listen-env:%s' % ('both' if env_occ and cmd_occ else 'env-only' if env_occ else 'cmd-only'))
+        if out != expect:
+            ctx.violation('C16:env:listen-not-replaced',
+                          case=dict(stream='listen-env', env=env_t, argv=cmd_t, expect=expect),
+                          expected=expect + ' (the last -l, command line after environment, replaces the earlier ones)',
+                          observed=out)
+        # model: store action over the concatenated occurrences, then the listen parser on the stored text
+        stored = getattr(ns, 'listen', None) if ns is not None else None
+        occ = env_occ + cmd_occ
+        line = 'store --listen %d %s' % (len(env_occ), ' '.join('--listen=%s' % hx(o[0]) for o in occ))
+        cases.append(Case('listen-env', line, 'val=' + ('N' if stored is None else hx(stored if isinstance(stored, str) else repr(stored))),
+                          True, ' '.join(env_t) + ' | ' + ' '.join(cmd_t)))
+        cases.append(Case('listen-env', 'listen %s' % hx(last[0]), out, True, last[0]))
+    return cases
+
+
+CMDLINE_SUBNET = (4, 0xc0000200, 24, 0, 0)     # the 192.0.2.0/24 given on the command line next to the file
+
+
+def canon_subnets(lst):
+    """what client.main got, as a set of (family, address int, width, fport, lport)"""
+    out = set()
+    for (f, txt, w, fp, lp) in lst:
+        out.add((fam_no(f), int(ipaddress.ip_address(txt)), w, fp, lp))
+    return out
+
+
+def run_subnet_file(R, path, option, extra_argv):
+    """the real cmdline.main with `-s file` / `-X file`; returns (includes, excludes) or a class name"""
+    R.log.idna = {}
+    # one subnet on the command line as well, so that a file without subnet lines is not refused
+    argv = [option, path] + list(extra_argv) + ['192.0.2.0/24']
+    ns, captured, _args = R.main_with_env(None, argv, stop_after_parse=False)
+    if captured is None:
+        return None
+    return captured[13], captured[14]
+
+
+def build_subnet_file(rng):
+    """lines of a subnet file and the tuples its subnet lines denote (ASCII, `\n` line ends)"""
+    lines, expect = [], []
+    nets = []
+    for _ in range(rng.randrange(1, 4)):
+        if rng.random() < 0.7:
+            a = rng.choice([0x0a010000, 0xc0a80100, 0x0a000000, rng.getrandbits(32)])
+            w = rng.choice([None, 8, 16, 24, 32])
+            nets.append((4, a, w))
+        else:
+            a = rng.choice([0xfd00 << 112, 0x20010db8 << 96, 1, rand_v6(rng)])
+            nets.append((6, a, rng.choice([None, 48, 64, 128])))
+    n = rng.randrange(2, 9)
+    for _ in range(n):
+        r = rng.random()
+        if r < 0.12:
+            lines.append(rng.choice(['', '   ', '\t', '# comment', '  # 10.9.9.9/32:1', '#10.1.0.0/16:80']))
+            continue
+        fam, a, w = rng.choice(nets)
+        p = rng.choice(PORTS + [(80,), (443,), (8000, 8080)])
+        ps, fp, lp = port_suffix(p)
+        if fam == 4:
+            txt = str(ipaddress.IPv4Address(a)) if rng.random() < 0.8 else gen_v4_spelling(rng, a)[0]
+            if not txt.isascii():
+                txt = str(ipaddress.IPv4Address(a))
+            s = txt + ('' if w is None else '/%d' % w) + ps
+            expect.append((4, a, 32 if w is None else w, fp, lp))
+        else:
+            txt = str(ipaddress.IPv6Address(a))
+            ws = '' if w is None else '/%d' % w
+            s = ('[' + txt + ws + ']' + ps) if p is not None else txt + ws
+            expect.append((6, a, 128 if w is None else w, fp, lp))
+        lines.append(rng.choice(['', '', ' ', '\t', '  ']) + s + rng.choice(['', '', ' ', '  \t']))
+        if rng.random() < 0.1:          # an exact duplicate line
+            lines.append(s)
+    content = '\n'.join(lines) + rng.choice(['\n', '\n', ''])
+    return content, expect
+
+
+FILE_FIXED = [
+    ('10.1.0.0/16:80\n10.1.0.0/16:443\n', [(4, 0x0a010000, 16, 80, 80), (4, 0x0a010000, 16, 443, 443)]),
+    ('10.1.0.0/16\n10.1.0.0/16:8000-8080\n# c\n\n', [(4, 0x0a010000, 16, 0, 0), (4, 0x0a010000, 16, 8000, 8080)]),
+    ('[fd00::/64]:22\nfd00::/64\n', [(6, 0xfd00 << 112, 64, 22, 22), (6, 0xfd00 << 112, 64, 0, 0)]),
+]
+
+
+def file_case(ctx, R, tmpdir, content, expect, option, n):
+    path = os.path.join(tmpdir, 'subnets-%d.txt' % n)
+    with open(path, 'w', encoding='ascii', newline='') as f:
+        f.write(content)
+    cases = []
+    try:
+        # direct call: correspondence with the model
+        R.log.idna = {}
+        kind, val = R.quiet(R.options.parse_subnetport_file, path)
+        if kind == 'ok':
+            out = 'ok ' + ('|'.join((';'.join('%d,%s,%d,%d,%d' % (fam_no(f), a, w, fp, lp) for (f, a, w, fp, lp) in grp) or '-')
+                                    for grp in val) or '-')
+        else:
+            out = exc_class(val)
+        cases.append(Case('file', 'file %s%s' % (hx(content), idna_tokens(R.log)), out, True, content))
+        # through the real main: what client.main is handed
+        if expect is not None:
+            got = run_subnet_file(R, path, option, [])
+            want = set(expect)
+            if option == '-X':
+                obs = None if got is None else canon_subnets(got[1])
+            else:
+                obs = None if got is None else canon_subnets(got[0])
+                want = want | {CMDLINE_SUBNET}
+            ctx.hist('file:%s' % option)
+            if obs != want:
+                ctx.violation('C16:file:line-lost-or-changed',
+                              case=dict(stream='file', option=option, content=content, expect=[list(e) for e in expect]),
+                              expected='client.main gets every listed subnet with its own ports: %s' % sorted(want),
+                              observed='no call of client.main' if obs is None else
+                              'missing %s, unexpected %s' % (sorted(want - obs), sorted(obs - want)))
+    finally:
+        os.unlink(path)
+    return cases
+
+
+def file_cases(ctx, R, rng):
+    import tempfile
+    cases = []
+    tmpdir = tempfile.mkdtemp(prefix='c16-subnetfiles-')
+    try:
+        n = 0
+        for content, expect in FILE_FIXED:
+            for option in ('-s', '-X'):
+                cases += file_case(ctx, R, tmpdir, content, expect, option, n)
+                n += 1
+        for _ in range(ctx.scale(250, 5000)):
+            content, expect = build_subnet_file(rng)
+            cases += file_case(ctx, R, tmpdir, content, expect, rng.choice(['-s', '-X', '--subnets', '--exclude-from']).replace('--subnets', '-s').replace('--exclude-from', '-X'), n)
+            n += 1
+        # files with a bad line: the first bad line decides (usage error); model correspondence only
+        for _ in range(ctx.scale(60, 1500)):
+            content, _e = build_subnet_file(rng)
+            ls = content.split('\n')
+            ls.insert(rng.randrange(len(ls) + 1), rng.choice(['1.2.3.4/33', '::/129', 'a..b', '1.2.3.4:80:90', 'nosuch.test', '1.2.3.4/' + '1' * 4301, '[[::1]]']))
+            cases += file_case(ctx, R, tmpdir, '\n'.join(ls), None, '-s', n)
+            n += 1
+    finally:
+        os.rmdir(tmpdir)
+    return cases
+
+
 STORE_VALUES = {
     '--listen': ['127.0.0.1:0', '0.0.0.0:12300', '[::1]:0', '1234'],
     '--ns-hosts': ['1.1.1.1', '8.8.8.8,8.8.4.4', '::1'],
@@ -1050,6 +1262,8 @@ def gen_cases(ctx):
         cases += listen_cases(ctx, R, rng)
         cases += hostport_cases(ctx, R, rng)
         cases += env_cases(ctx, R, rng)
+        cases += listen_env_cases(ctx, R, rng)
+        cases += file_cases(ctx, R, rng)
     finally:
         R.close()
     cases += lib_cases(ctx, rng, rx_texts_from_source())
@@ -1096,7 +1310,7 @@ def run(ctx):
     for c in cases:
         ctx.count()
         ctx.mark((c.stream, c.line), c.nontrivial)
-    for stream in ('subnet', 'ipport', 'listen', 'hostport', 'env', 'lib:rx6', 'lib:gai'):
+    for stream in ('subnet', 'ipport', 'listen', 'hostport', 'env', 'listen-env', 'file', 'lib:rx6', 'lib:gai'):
         for c in cases:
             if c.stream == stream and c.stream not in seen:
                 seen.add(stream)
@@ -1158,6 +1372,27 @@ def replay(ctx, rep):
             bad = got != want or (via is not None and str(via) != want)
             return bad, 'SSHUTTLE_ARGS=%r argv=%r: parsed %s=%r (client.main got %r); command line, else environment, say %r; list parsed: %r' % (
                 case['env'], case['argv'], o, got, via, want, args)
+        if st == 'listen-env':
+            out, _ns = run_listen_env(R, case['env'], case['argv'])
+            return out != case['expect'], 'SSHUTTLE_ARGS=%r argv=%r: client.main got listeners %s; the last -l alone says %s' % (
+                shlex.join(case['env']), case['argv'], out, case['expect'])
+        if st == 'file':
+            import tempfile
+            d = tempfile.mkdtemp(prefix='c16-replay-')
+            path = os.path.join(d, 'subnets.txt')
+            try:
+                with open(path, 'w', encoding='ascii', newline='') as f:
+                    f.write(case['content'])
+                got = run_subnet_file(R, path, case['option'], [])
+            finally:
+                os.unlink(path)
+                os.rmdir(d)
+            want = set(tuple(e) for e in case['expect'])
+            if case['option'] != '-X':
+                want = want | {CMDLINE_SUBNET}
+            obs = None if got is None else canon_subnets(got[1] if case['option'] == '-X' else got[0])
+            return obs != want, '%s <file %r>: client.main got %s; the file lists %s' % (
+                case['option'], case['content'], 'nothing' if obs is None else sorted(obs), sorted(want))
         return False, 'unknown replay stream %r' % st
     finally:
         R.close()
